@@ -37,7 +37,8 @@ META = dict(
                 "(validity and shape only). The 1e-8 band of valid='norm' is exercised in channel T only, through value classes "
                 "zero / tiny (< 0.5e-8) / big (> 2e-8); lengths inside the band are unconstrained. Calls that raise where the "
                 "model expects a result are counted in the evidence notes, not judged (C03/C07/C12 own those clauses). "
-                "Trusted: TLC, harness/tlaval.py, numpy.shares_memory, h5py/VTK as used by the library."),
+                "Trusted: TLC, harness/tlaval.py, numpy.shares_memory, h5py/VTK as used by the library."
+                " Padding with every np.pad mode and option (constant_values, statistic modes with stat_length, linear_ramp) is decided by the stage PadOpt (spec/PadOpt.tla, harness/padopt.py): the mask must be padded exactly as the data read as 0/1 numbers would be."),
     technique="TLA+ register machine with a mask heap (FieldAlg.tla, C08.tla) + TLC exhaustive; states replayed into code; code traces validated by TLC (C08Trace.tla)",
     design_ref="DESIGN.md section 7 C08, Appendix D",
 )
@@ -212,11 +213,18 @@ def run(ctx):
         "numpy.shares_memory / `is` on the public `valid` arrays are the heap references of the model",
         "calls that raise where the model expects a result are counted (notes), not judged by C08",
     ]
+    # stage PadOpt (spec/PadOpt.tla): padding transforms validity exactly as it transforms the data, for every np.pad
+    # mode and option (constant_values, stat_length, end_values, ...)
+    from .. import padopt
+    padopt.run_stage(ctx, df, "C08_PadLikeData")
     return core.finish(ctx, rule=RULE, extra={"embeddings": [e.name for e in embs]})
 
 
 def replay(ctx, path):
     with open(path) as fh:
         rp = json.load(fh)
+    if "/pad." in rp.get("key", "") and ("widths" in rp["witness"] or "event" in rp["witness"]):
+        from . import padopt as padopt_entry
+        return padopt_entry.replay(ctx, path)
     print("witness:", json.dumps(rp["witness"])[:3000])
     return 1
